@@ -71,7 +71,7 @@ CLAIMED = {
     ),
     "C18": (
         "Lean 4 theorems about a small-step lock semantics + `decide` over the lock programs regenerated from the source text + controlled two-thread schedules on the real code",
-        "The translator abstracts every snapshot method of the source to a program over acq/rel/read/call; `generated_guarded` (decide over the regenerated table) states that every read happens while the lock is held and `generated_reentrant` that the lock is an RLock; the interleaving theorems (mutual exclusion, snapshot atomicity, blocking, no self-deadlock) hold for all guarded programs and all schedules. Tie/search: thread A holds `with tree:` with a sentinel in the tree while thread B runs each snapshot operation; B must block and never see the sentinel; nested re-entrant use; stress runs with paired writes.",
+        "The translator abstracts every snapshot method of the source to a program over acq/rel/read/call; `generated_guarded` (decide over the regenerated table) states that every read happens while the lock is held and `generated_reentrant` that the lock is an RLock; the interleaving theorems (mutual exclusion, snapshot atomicity, blocking, no self-deadlock) hold for all guarded programs and all schedules. Tie/search: thread A holds `with tree:` with a sentinel in the tree while thread B runs each snapshot operation; B must block and never see the sentinel; reader-first schedules; one preemption at every line the reader executes inside `__enter__` and inside each snapshot operation (sys.settrace, no patching: the writer's paired change must be seen entirely or not at all); a 4.5 s critical section in the thorough tier / search; nested re-entrant use; stress runs with paired writes.",
         "CPython's scheduler/GIL and RLock implementation are outside the model; the syntactic abstraction of the translator over-approximates reads",
         "DESIGN.md §6 C18",
     ),
@@ -84,7 +84,7 @@ CLAIMED = {
     "C20": (
         "Lean 4 theorems universally quantified over the draw stream ('for all seeds' = 'for all draw streams') + recorded-draw replay against the real generator",
         "The model consumes an explicit list of draws (function, arguments, result) in the order the code calls random.*; theorems for every draw stream: types allowed by the relations, counts fixed or within the randomizer's range (0 when skipped), attributes = merge of `*`/type/relation specs with {idx}/{hier_idx} expanded, values in their declared ranges, skipped attributes absent, typed trees carry the type name as kind. Tie: random structure definitions with every randomizer class; the draws made by the real build_random_tree are recorded by wrapping the `random` module for the duration of the call and replayed on the model, trees compared exactly; Conforms oracle on the implementation.",
-        "PRNG quality, fabulist text content and float arithmetic of uniform() are outside the model; acyclic relation graphs",
+        "PRNG quality, fabulist text content and float arithmetic of uniform() are outside the model; the generated relation graphs are acyclic or have self-loops that die out",
         "DESIGN.md §6 C20",
     ),
     "C09": (
@@ -113,13 +113,13 @@ CLAIMED = {
     ),
     "C13": (
         "Lean 4 theorems (operations are validate-then-apply: a refusal returns the old state; WF after failing callbacks) + fault enumeration on the real code",
-        "In the model every single-node operation validates before it mutates, so a refusal carries no new state; multi-node operations are proved to refuse up front; WF is preserved when a callback fails. Tie: every invalid argument on every small forest, malformed-heavy histories, raising calc_data_id / sort-key callbacks, and every read-only operation with its callback raising at the k-th call.",
+        "In the model every single-node operation validates before it mutates, so a refusal carries no new state; multi-node operations are proved to refuse up front; WF is preserved when a callback fails. Tie: every invalid argument on every small forest, malformed-heavy histories, raising calc_data_id / sort-key / in-place filter predicate callbacks, stale references (removed nodes as `before=` and as receivers of calls), arguments outside the model's alphabet (unhashable ids, a node_id in use, filter(None), ...), documents read by load / from_dict with raising mappers, and every read-only operation with its callback raising at the k-th call.",
         "known finding KF-C13-remove-keep-clones-partial is mirrored by the model and reported as KNOWN-FINDING",
         "DESIGN.md §6 C13",
     ),
     "C14": (
         "Lean 4 theorems (to_dict mirrors the node; from_dict∘to_dict_list rebuilds the forest) + differential correspondence through json",
-        "toDict/fromDictL mirror the code; theorems: one dict per node, nested alike, data_id present iff custom; from_dict(to_dict_list t) has the same shape, order, data, ids and clone groups. Tie: all small forests + random forests with clones/explicit ids, string data and objects with inverse mappers, directly and through json.dumps/loads; emptied trees.",
+        "toDict/fromDictL mirror the code; theorems: one dict per node, nested alike, data_id present iff custom; from_dict(to_dict_list t) has the same shape, order, data, ids and clone groups, for string data without mapper and for ANY data objects with a pair of inverse mappers (MapperOK). Tie: all small forests + random forests with clones/explicit ids, string data and objects with inverse mappers, directly and through json.dumps/loads; emptied trees.",
         "",
         "DESIGN.md §6 C14",
     ),
